@@ -63,3 +63,111 @@ Qed.
 
 Theorem do_mean_perm n px px' : Permutation px px' -> do_mean OpsR n px = do_mean OpsR n px'.
 Proof. intros P. unfold do_mean. apply map_ext. intros k. now apply zone_mean_perm. Qed.
+
+(** ---- zones are isolated from one another ---- *)
+
+(** a pixel of another zone (or with an id outside the zones asked for) contributes nothing to zone k *)
+Theorem other_zone_cell k p z r : z <> k -> members k ((p, Some z) :: r) = members k r.
+Proof.
+  intros H. destruct p as [p|]; cbn [members]; [|reflexivity].
+  destruct (Z.eqb_spec z k) as [E|_]; [contradiction|reflexivity].
+Qed.
+
+(** the cells of zone k, in order *)
+Definition in_zone (k : Z) (c : cell) : bool :=
+  match snd c with Some z => Z.eqb z k | None => false end.
+
+Lemma members_filter k px : members k (filter (in_zone k) px) = members k px.
+Proof.
+  induction px as [|[op oz] r IH]; [reflexivity|]. cbn [filter].
+  destruct oz as [z|]; unfold in_zone at 1; cbn [snd].
+  - destruct (Z.eqb z k) eqn:E.
+    + destruct op as [p|]; cbn [members]; rewrite ?E, ?IH; reflexivity.
+    + rewrite IH. destruct op as [p|]; cbn [members]; rewrite ?E; reflexivity.
+  - rewrite IH. destruct op; reflexivity.
+Qed.
+
+(** zone k's result is a function of zone k's own cells: two rasters which agree on the cells
+    whose zone id is k give the same mean and count for k, whatever the other cells hold *)
+Theorem zone_isolated k px px' :
+  filter (in_zone k) px = filter (in_zone k) px' -> zone_mean OpsR k px = zone_mean OpsR k px'.
+Proof.
+  intros H. rewrite !zone_mean_spec, <- (members_filter k px), <- (members_filter k px'), H. reflexivity.
+Qed.
+
+(** ---- the mean lies within the range of the pixels it averages ---- *)
+
+Lemma rsum_bounds lo hi l : Forall (fun x => lo <= x <= hi) l ->
+  INR (length l) * lo <= rsum l <= INR (length l) * hi.
+Proof.
+  induction 1 as [|x r Hx _ IH]; [cbn; lra|]. cbn [rsum length]. rewrite S_INR. lra.
+Qed.
+
+Theorem zone_mean_bounds k px lo hi m c :
+  Forall (fun x => lo <= x <= hi) (members k px) ->
+  zone_mean OpsR k px = (Some m, c) -> lo <= m <= hi.
+Proof.
+  intros HB. rewrite zone_mean_spec. destruct (Nat.eqb (length (members k px)) 0) eqn:E; [discriminate|].
+  intros H. injection H as <- _. apply Nat.eqb_neq in E.
+  assert (0 < INR (length (members k px))) as Hn by (apply lt_0_INR; lia).
+  pose proof (rsum_bounds lo hi _ HB) as [H1 H2]. unfold Rdiv. split.
+  - apply Rmult_le_reg_r with (INR (length (members k px))); [exact Hn|].
+    rewrite Rmult_assoc, Rinv_l by lra. lra.
+  - apply Rmult_le_reg_r with (INR (length (members k px))); [exact Hn|].
+    rewrite Rmult_assoc, Rinv_l by lra. lra.
+Qed.
+
+(** ---- the counts of the zones partition the valid in-range pixels ---- *)
+
+(** number of valid pixels whose zone id lies in [lo, lo + n) *)
+Fixpoint in_range_count (lo : Z) (n : nat) (px : list cell) : nat :=
+  match px with
+  | [] => 0
+  | (Some _, Some z) :: r => (if (Z.leb lo z && Z.ltb z (lo + Z.of_nat n))%bool then 1 else 0) + in_range_count lo n r
+  | _ :: r => in_range_count lo n r
+  end%nat.
+
+Fixpoint count_sum (lo : Z) (n : nat) (px : list cell) : nat :=
+  match n with
+  | O => 0
+  | S m => length (members lo px) + count_sum (lo + 1) m px
+  end%nat.
+
+Lemma count_sum_nil lo n : count_sum lo n [] = 0%nat.
+Proof. revert lo; induction n as [|n IH]; intros lo; cbn [count_sum members length]; [reflexivity|now rewrite IH]. Qed.
+
+Lemma count_sum_skip lo n c r :
+  (forall k, members k (c :: r) = members k r) -> count_sum lo n (c :: r) = count_sum lo n r.
+Proof. intros H. revert lo; induction n as [|n IH]; intros lo; cbn [count_sum]; [reflexivity|]. now rewrite H, IH. Qed.
+
+Lemma count_sum_cons lo n p z r :
+  count_sum lo n ((Some p, Some z) :: r) =
+  ((if (Z.leb lo z && Z.ltb z (lo + Z.of_nat n))%bool then 1 else 0) + count_sum lo n r)%nat.
+Proof.
+  revert lo; induction n as [|n IH]; intros lo.
+  - cbn [count_sum]. replace (lo + Z.of_nat 0)%Z with lo by lia.
+    destruct (Z.leb_spec lo z), (Z.ltb_spec z lo); cbn [andb]; try reflexivity; lia.
+  - cbn [count_sum]. rewrite IH. cbn [members].
+    destruct (Z.eqb_spec z lo) as [->|Hne].
+    + destruct (Z.leb_spec (lo + 1) lo); [lia|]. cbn [andb length].
+      destruct (Z.leb_spec lo lo); [|lia]. destruct (Z.ltb_spec lo (lo + Z.of_nat (S n))); [|lia]. cbn [andb]. lia.
+    + destruct (Z.leb_spec (lo + 1) z), (Z.ltb_spec z (lo + 1 + Z.of_nat n)), (Z.leb_spec lo z), (Z.ltb_spec z (lo + Z.of_nat (S n)));
+        cbn [andb]; lia.
+Qed.
+
+(** every valid pixel with an in-range zone id is counted in exactly one zone: the counts add up
+    to the number of such pixels (none lost, none counted twice) *)
+Theorem counts_partition lo n px : count_sum lo n px = in_range_count lo n px.
+Proof.
+  induction px as [|[op oz] r IH]; [apply count_sum_nil|].
+  destruct op as [p|]; destruct oz as [z|].
+  - rewrite count_sum_cons. cbn [in_range_count]. now rewrite IH.
+  - rewrite count_sum_skip; [exact IH|reflexivity].
+  - rewrite count_sum_skip; [exact IH|reflexivity].
+  - rewrite count_sum_skip; [exact IH|reflexivity].
+Qed.
+
+(** tie to [do_mean]: its count column is the per-zone member count *)
+Lemma do_mean_counts n px :
+  map snd (do_mean OpsR n px) = map (fun k => INR (length (members (Z.of_nat k) px))) (seq 0 n).
+Proof. unfold do_mean. rewrite map_map. apply map_ext. intros k. now rewrite zone_mean_spec. Qed.
